@@ -1,9 +1,12 @@
 package c13
 
 import (
+	"encoding/json"
 	"fmt"
 	"io"
 	"net"
+	"net/http"
+	"net/http/httptest"
 	"sort"
 	"strconv"
 	"strings"
@@ -11,6 +14,7 @@ import (
 	"testing"
 	"time"
 
+	"github.com/0xReLogic/Helios/internal/adminapi"
 	"github.com/0xReLogic/Helios/internal/config"
 	"github.com/0xReLogic/Helios/verifharness/lab"
 	"pgregory.net/rapid"
@@ -379,19 +383,86 @@ type snapshot struct {
 	total, ok, failed, limited uint64
 	perBackend                 map[string]uint64
 	gauges                     map[string]int32 // from /metrics
-	listGauges                 map[string]int32 // from /v1/backends (ListBackends)
+	listGauges                 map[string]int32 // from /v1/backends
+	// the same totals as the admin API's /v1/metrics publishes them
+	adminTotal, adminOK, adminFailed, adminLimited uint64
+	readErr                                        string
 }
 
-func read(l *lab.SocketLab) snapshot {
-	m := l.LB.GetMetricsCollector().GetMetrics()
-	s := snapshot{total: m.TotalRequests, ok: m.SuccessfulRequests, failed: m.FailedRequests, limited: m.RateLimitedRequests,
-		perBackend: map[string]uint64{}, gauges: map[string]int32{}, listGauges: map[string]int32{}}
-	for name, b := range m.BackendMetrics {
-		s.perBackend[name] = b.TotalRequests
-		s.gauges[name] = b.ActiveConnections
+// published is what the endpoints of one lab serve: /metrics (MetricsHandler), the admin API's /v1/metrics
+// and /v1/backends. They are mounted once per lab, as a server mounts them, so that whatever a
+// handler keeps between two reads is part of what is observed.
+type published struct {
+	metrics http.HandlerFunc
+	admin   http.Handler
+}
+
+var mounted sync.Map // *lab.SocketLab -> *published
+
+func endpoints(l *lab.SocketLab) *published {
+	if p, ok := mounted.Load(l); ok {
+		return p.(*published)
 	}
-	for _, b := range l.LB.ListBackends() {
-		s.listGauges[b.Name] += b.ActiveConnections
+	acfg := *l.Cfg
+	acfg.AdminAPI.Enabled, acfg.AdminAPI.Port, acfg.AdminAPI.AuthToken = true, 9091, ""
+	acfg.AdminAPI.IPAllowList, acfg.AdminAPI.IPDenyList = nil, nil
+	p := &published{metrics: l.LB.GetMetricsCollector().MetricsHandler(), admin: adminapi.NewMux(l.LB, &acfg, l.LB.GetMetricsCollector())}
+	actual, _ := mounted.LoadOrStore(l, p)
+	return actual.(*published)
+}
+
+type metricsDoc struct {
+	Total   uint64 `json:"total_requests"`
+	OK      uint64 `json:"successful_requests"`
+	Failed  uint64 `json:"failed_requests"`
+	Limited uint64 `json:"rate_limited_requests"`
+	Backend map[string]struct {
+		Total  uint64 `json:"total_requests"`
+		Active int32  `json:"active_connections"`
+	} `json:"backend_metrics"`
+}
+
+func getJSON(h http.Handler, path string, into any) error {
+	rec := httptest.NewRecorder()
+	req := httptest.NewRequest("GET", path, nil)
+	req.RemoteAddr = "127.0.0.1:4999"
+	h.ServeHTTP(rec, req)
+	if rec.Code != 200 {
+		return fmt.Errorf("GET %s answered %d", path, rec.Code)
+	}
+	return json.Unmarshal(rec.Body.Bytes(), into)
+}
+
+// read takes the published numbers from the endpoints themselves (/metrics and, cross-checked
+// against it, the admin API's /v1/metrics; gauges also from /v1/backends).
+func read(l *lab.SocketLab) snapshot {
+	ep := endpoints(l)
+	var m, am metricsDoc
+	s := snapshot{perBackend: map[string]uint64{}, gauges: map[string]int32{}, listGauges: map[string]int32{}}
+	if err := getJSON(ep.metrics, "/metrics", &m); err != nil {
+		s.readErr = err.Error()
+		return s
+	}
+	s.total, s.ok, s.failed, s.limited = m.Total, m.OK, m.Failed, m.Limited
+	for name, b := range m.Backend {
+		s.perBackend[name] = b.Total
+		s.gauges[name] = b.Active
+	}
+	if err := getJSON(ep.admin, "/v1/metrics", &am); err != nil {
+		s.readErr = err.Error()
+		return s
+	}
+	s.adminTotal, s.adminOK, s.adminFailed, s.adminLimited = am.Total, am.OK, am.Failed, am.Limited
+	var bl []struct {
+		Name   string `json:"name"`
+		Active int32  `json:"active_connections"`
+	}
+	if err := getJSON(ep.admin, "/v1/backends", &bl); err != nil {
+		s.readErr = err.Error()
+		return s
+	}
+	for _, b := range bl {
+		s.listGauges[b.Name] += b.Active
 	}
 	return s
 }
@@ -448,6 +519,13 @@ func evalBooks(l *lab.SocketLab, bc batchCfg, t tally, parkedPer map[int]int, de
 	s, ok := quiesce(l, parked)
 	if !ok {
 		return "" // budget: no quiescent reading obtained; not a verdict
+	}
+	if s.readErr != "" {
+		return "the published numbers could not be read: " + s.readErr
+	}
+	if s.adminTotal != s.total || s.adminOK != s.ok || s.adminFailed != s.failed || s.adminLimited != s.limited {
+		return fmt.Sprintf("/metrics and the admin API's /v1/metrics publish different totals at the same quiescent moment: total %d vs %d, successful %d vs %d, failed %d vs %d, rate-limited %d vs %d",
+			s.total, s.adminTotal, s.ok, s.adminOK, s.failed, s.adminFailed, s.limited, s.adminLimited)
 	}
 	if s.total != uint64(t.sent) {
 		return fmt.Sprintf("A1: total_requests=%d but %d requests reached the balancer [%s]", s.total, t.sent, s)
@@ -542,6 +620,7 @@ func TestC13Accounting(t *testing.T) {
 			rt.Fatalf("harness: %v", err)
 		}
 		defer l.Close()
+		defer mounted.Delete(l)
 		if bc.Dead {
 			l.Backends[bc.Backends].Refuse(true)
 		}
